@@ -126,4 +126,9 @@ def run(run, harness, replay=None, shape_only=False):
         evs = read_ndjson(opath)
         mism = validate_trace(run, "Trace_OnOff", "Trace_OnOff.cfg", evs)
         for idx, detail in mism:
-            run.fail("onoff:" + evs[idx]["file"], "de-duplication on/off circuits differ: %s" % json.dumps(detail)[:300], {"event": evs[idx]})
+            d = detail[0] if isinstance(detail, list) else detail
+            # differences confined to the reason / location bits of the panic record while no circuit reports a panic: open known finding
+            if d.get("kind") == "payload_only" and run.known_hit("panic-payload-without-panic"):
+                run.cov["onoff_payload_only_programs"] = run.cov.get("onoff_payload_only_programs", 0) + 1
+                continue
+            run.fail("onoff:" + evs[idx]["file"], "de-duplication on/off circuits differ (%s): %s" % (d.get("kind"), json.dumps(d.get("input"))[:300]), {"event": evs[idx]})
